@@ -68,6 +68,7 @@ type c06Scenario struct {
 	Crc       bool     `json:"crc,omitempty"`     // Channel.VerifyCrc (disk readers verify sealed segments / snapshot files when opening them)
 	Corrupt   string   `json:"corrupt,omitempty"` // "" | log | snap: one byte of the cached log segment / snapshot file was altered on disk before the start
 	Prep      bool     `json:"prep,omitempty"`    // the source prepares a snapshot for 4 s (LF heartbeats) before +FULLRESYNC and before $<len>
+	NoResume  bool     `json:"no_resume,omitempty"` // output.replay.resumeFromBreakPoint=false: the position lives in the process only (ticker-mode output, CanTransaction=false)
 	Burst     string   `json:"burst,omitempty"`    // the master takes 2 writes during every snapshot; payload + those commands arrive as one write ("one") or split "inpay" | "atend" | "incmd"
 	Events    []string `json:"events,omitempty"`
 }
@@ -162,7 +163,7 @@ func c06RedisCfg(addr string) config.RedisConfig {
 // c06GlobalConfig fills the process-wide configuration the code under test reads
 // (what the YAML loader would have produced): transactional checkpoints, resume from
 // break point, no RESTORE (snapshot keys are replayed as plain SETs).
-func c06GlobalConfig(crc bool) error {
+func c06GlobalConfig(crc bool, resume bool) error {
 	gc := config.GetSyncerConfig()
 	rc := c06RedisCfg(c06SrcAddr)
 	// one snapshot slot (a deployment with one input): a slot that is not given back by any
@@ -175,9 +176,13 @@ func c06GlobalConfig(crc bool) error {
 	gc.Channel = &config.ChannelConfig{VerifyCrc: crc}
 	gc.Server.ListenPort = 18001
 	yes, no := true, false
+	cpTick := time.Hour // transactional mode: the position travels inside every MULTI/EXEC
+	if !resume {
+		cpTick = time.Second // in-memory position, ticker mode
+	}
 	tc := c06RedisCfg(c06TgtAddr)
 	gc.Output = &config.OutputConfig{Redis: &tc, Replay: config.ReplayConfig{
-		ResumeFromBreakPoint:   &yes,
+		ResumeFromBreakPoint:   &resume,
 		KeyExists:              "replace",
 		TargetDb:               -1,
 		BatchCmdCount:          64,
@@ -186,7 +191,7 @@ func c06GlobalConfig(crc bool) error {
 		KeepaliveTicker:        time.Hour,
 		ReplayRdbParallel:      1,
 		ReplayRdbEnableRestore: &no,
-		UpdateCheckpointTicker: time.Hour,
+		UpdateCheckpointTicker: cpTick,
 		ReplayTransaction:      &yes,
 		BisyncEnabled:          &no,
 		Stats:                  config.OutputStats{DisableLog: true},
@@ -199,7 +204,7 @@ func (e *c06Env) syncerConfig() SyncerConfig {
 	if e.scn.Chan == "mem" {
 		cc = config.ChannelConfig{Type: config.ChannelTypeMemory, Memory: &config.MemoryConfig{MaxSize: 0, LogSize: e.scn.LogSize}}
 	}
-	return SyncerConfig{Id: 1, Input: c06RedisCfg(c06SrcAddr), Output: c06RedisCfg(c06TgtAddr), Channel: cc, CanTransaction: true}
+	return SyncerConfig{Id: 1, Input: c06RedisCfg(c06SrcAddr), Output: c06RedisCfg(c06TgtAddr), Channel: cc, CanTransaction: !e.scn.NoResume}
 }
 
 func (e *c06Env) mark(format string, a ...interface{}) {
@@ -221,7 +226,7 @@ func (e *c06Env) histOf(name string) *sourced.History {
 // prepare builds the initial triple.
 func (e *c06Env) prepare() error {
 	scn := e.scn
-	if err := c06GlobalConfig(scn.Crc); err != nil {
+	if err := c06GlobalConfig(scn.Crc, !scn.NoResume); err != nil {
 		return err
 	}
 
@@ -290,8 +295,8 @@ func (e *c06Env) prepare() error {
 				c.triggered = true
 			} else {
 				plan.OnRequest = func(r *redisd.Req) {
-					if c.triggered || time.Since(c.armedAt) > 150*time.Millisecond {
-						return // past the re-keying: the snapshot is on its way
+					if c.triggered {
+						return
 					}
 					c.seen++
 					if c.seen == c.k {
@@ -641,6 +646,16 @@ func (e *c06Env) apply(ev string) error {
 		h.Append(cur.NumCmds())
 		e.hist[tag] = h
 		e.src.Replace(h)
+	case "newp":
+		// brand-new master with overlapping offsets whose first snapshot transfer dies in
+		// the middle of the payload (connection lost); the next one is served normally
+		tag := e.nextTag
+		e.nextTag++
+		h := sourced.NewHistory(tag, e.scn.base())
+		h.Append(cur.NumCmds())
+		e.hist[tag] = h
+		e.src.CutNextPayload = true
+		e.src.Replace(h)
 	case "down2", "down6":
 		// the source's address refuses connections for 2 s (inside the tool's 3 x 1 s
 		// connection retries) or 6 s (beyond them: the run loop ends, the process restarts)
@@ -766,13 +781,27 @@ func c06Exec(t *testing.T, scn c06Scenario, scratch string, n int) mc.Result {
 		// and a memory cache forgets everything then); the environment is quiescent
 		rec.auditCache()
 		env.stopTool()
+		// a key replayed from a snapshot is preceded, on the same connection, by EXISTS
+		// of that key (replay without RESTORE); a stream command never is
+		probed := map[int]string{} // connection -> key of its last request if that was EXISTS
+		snapSeq := map[int]bool{}
+		for _, r := range env.tgt.Log() {
+			if r.Name() == "set" && len(r.Argv) >= 3 && probed[r.Conn] == string(r.Argv[1]) {
+				snapSeq[r.Seq] = true
+			}
+			if r.Name() == "exists" && len(r.Argv) == 2 {
+				probed[r.Conn] = string(r.Argv[1])
+			} else if r.Name() != "del" {
+				delete(probed, r.Conn)
+			}
+		}
 		for _, r := range env.tgt.ExecLog() {
 			if r.Seq <= env.base || r.Name() != "set" || len(r.Argv) < 3 {
 				continue
 			}
 			k := string(r.Argv[1])
 			if strings.HasPrefix(k, "snap:") || strings.HasPrefix(k, "pre:") || (len(k) > 1 && k[0] == 'h' && k[1] >= '0' && k[1] <= '9') {
-				rec.items = append(rec.items, c06Item{Seq: r.Seq, Snap: r.Txn == 0, Key: k})
+				rec.items = append(rec.items, c06Item{Seq: r.Seq, Snap: snapSeq[r.Seq], Key: k})
 			}
 		}
 		if len(env.tgt.MachineryErrors) > 0 || len(env.src.MachineryErrors) > 0 {
@@ -1075,6 +1104,12 @@ func (rec *c06Record) judge() mc.Result {
 				if off, ok := o.Stored[id]; ok && off == pos {
 					return true
 				}
+				if rec.scn.NoResume && applied != nil && pos == applied.H.Off(applied.N) {
+					// the position is kept in the process: it is the position of what the
+					// target has applied (whether its id may be used is judged by what is
+					// delivered after the reply)
+					return true
+				}
 				return o.ChanRun == id && o.ChanRight == pos
 			}
 			if !held(p.ReqID, p.ReqOff-1) {
@@ -1095,6 +1130,14 @@ func (rec *c06Record) judge() mc.Result {
 				if strings.HasPrefix(it.Key, "snap:") {
 					mk = append(mk, it)
 				}
+			}
+			if len(mk) == 0 && len(stream) == 0 && p.Full && rec.midFlightFault() && c06Subset(snap, C.SnapshotKeys(p.HistCmds)) {
+				// the harness interrupted this attempt while the served snapshot was being
+				// loaded: the target now holds a part of it. Nothing may be continued from
+				// here; the next connection has to bring a complete snapshot.
+				applied = nil
+				obsParts = append(obsParts, fmt.Sprintf("%s|%s|partial-snapshot=%d", shape, c06NameArgs(p.Raw), len(snap)))
+				continue
 			}
 			if len(mk) != 1 {
 				return viol("the snapshot replayed after a (re)connection is not one complete snapshot", "incomplete-snapshot:"+shape, ctx)
@@ -1226,6 +1269,31 @@ func (rec *c06Record) judge() mc.Result {
 	}
 	c06LastObs += fmt.Sprintf(" ; target requests %d", e.tgt.NumReqs())
 	return mc.OK(mc.Hash(obsParts...), len(rec.psyncs) > 0 && len(rec.items) > 0, e.events)
+}
+
+// midFlightFault: the history contains an event that interrupts a connection attempt
+// between +FULLRESYNC and the end of the snapshot replay.
+func (rec *c06Record) midFlightFault() bool {
+	for _, ev := range rec.scn.Events {
+		if strings.HasPrefix(ev, "new:") || ev == "newp" {
+			return true
+		}
+	}
+	return false
+}
+
+func c06Subset(items []c06Item, of []string) bool {
+	set := map[string]bool{}
+	for _, k := range of {
+		set[k] = true
+	}
+	for _, it := range items {
+		if !set[it.Key] {
+			return false
+		}
+		delete(set, it.Key)
+	}
+	return true
 }
 
 func c06NameArgs(raw string) string {
@@ -1532,8 +1600,37 @@ func c06Histories(tier string) []c06Scenario {
 			cuts = append(cuts, []string{fmt.Sprintf("new:e%d", k)})
 		}
 	}
+	// ... also while the served snapshot is being loaded into the target (target outage at
+	// a later request), and a snapshot transfer that dies in the middle of the payload
+	var late [][]string
+	for k := c06CutSteps + 2; k <= 40; k += 2 {
+		late = append(late, []string{fmt.Sprintf("new:d%d", k)})
+	}
+	late = append(late, []string{"newp"}, []string{"newp", "app"})
+	// resumeFromBreakPoint=false: the position lives in the process only. All in-process
+	// reconnection kinds (+CONTINUE, +CONTINUE <new id>, +FULLRESYNC same / brand-new id,
+	// interrupted attempts) with that configuration; a process restart then has no position
+	for _, tr := range triples {
+		if tr.Base != "" || tr.LogSize != 1<<20 || tr.Trim != 0 || tr.CpID != "" || !c06Seed(tr) {
+			continue
+		}
+		v := tr
+		v.NoResume = true
+		seqs := append([][]string{}, seed...)
+		seqs = append(seqs, []string{"new"}, []string{"rst"}, []string{"new", "drop"}, []string{"fo", "new"})
+		if tr.Src != "new" {
+			for _, c := range cuts {
+				if c[0][4] != 's' || c[0] == "new:s8" || c[0] == "new:s16" {
+					seqs = append(seqs, c)
+				}
+			}
+			seqs = append(seqs, late...)
+		}
+		fams = append(fams, c06Family{v, seqs})
+	}
 	for _, tr := range triples {
 		if c06Seed(tr) && tr.Src != "new" {
+			fams = append(fams, c06Family{tr, late})
 			fams = append(fams, c06Family{tr, cuts})
 			if thorough && tr.Chan == "disk" {
 				v := tr
